@@ -134,6 +134,7 @@ type vFSM struct {
 	restored int
 	snapGate chan struct{} // when set, Snapshot() waits for it (cooperative harnesses: a slow snapshot)
 	persistGate chan struct{} // when set, the state's Persist() waits for it (a slow write of the snapshot)
+	restoreErr  error         // when set, Restore fails with it and leaves the state as it was
 }
 
 func (f *vFSM) Update(cmd []byte) interface{} {
@@ -151,7 +152,14 @@ func (f *vFSM) Snapshot() (FSMState, error) {
 	f.snaps++
 	return vFSMState{n: len(f.updates), gate: f.persistGate}, nil
 }
-func (f *vFSM) Restore(r io.Reader) error    { f.restored++; f.updates = nil; return nil }
+func (f *vFSM) Restore(r io.Reader) error {
+	if f.restoreErr != nil {
+		return f.restoreErr
+	}
+	f.restored++
+	f.updates = nil
+	return nil
+}
 
 type vFSMState struct {
 	n    int
